@@ -594,10 +594,23 @@ Print Assumptions C04_str_split_sep.
 
 (* split() on white space: the pieces are non-empty, free of white space, and together all other characters in order *)
 Theorem C04_str_split_ws : forall s,
-  exists l, py_split s None None = Ok l /\ concat l = filter nonws s /\
-            Forall (fun p => p <> [] /\ forallb nonws p = true) l.
-Proof. exact py_split_ws_spec. Qed.
+  (exists l, py_split s None None = Ok l /\ concat l = filter nonws s /\
+             Forall (fun p => p <> [] /\ forallb nonws p = true) l) /\
+  (exists l, py_rsplit s None None = Ok l /\ concat l = filter nonws s /\
+             Forall (fun p => p <> [] /\ forallb nonws p = true) l).
+Proof. exact (fun s => conj (py_split_ws_spec s) (py_rsplit_ws_spec s)). Qed.
 Print Assumptions C04_str_split_ws.
+
+(* the number of pieces of split(sep, maxsplit) is min(count(sep), maxsplit) + 1: split and count see the same
+   leftmost non-overlapping occurrences *)
+Theorem C04_str_split_count : forall s sep ms, sep <> [] ->
+  exists l, py_split s (Some sep) ms = Ok l /\
+    Z.of_nat (length l) = match lim_of ms with
+                          | None => py_count s sep None None + 1
+                          | Some k => Z.min (py_count s sep None None) (Z.of_nat k) + 1
+                          end.
+Proof. exact py_split_count. Qed.
+Print Assumptions C04_str_split_count.
 
 (* splitlines: with keepends the lines concatenate to the string; without, no line holds a line break and together
    they are all other characters in order *)
